@@ -3,17 +3,17 @@
 import json
 T={
 "C01":("E1 exhaustive enumeration of boundary domains vs an independent reference encoder",
- "Every registered type (985 built-in type terms + 1064 generated derive definitions and composites) x every value of its boundary domain (u8/u16 complete, wider integers/floats at boundary and lane-coded values, all sequences up to length 3/4 over reduced element domains, 2^30-element Vec<()>): the real encoder's bytes equal the reference encoder's. Exhaustive within the stated bounds."),
+ "Every registered type (997 built-in type terms + 1169 generated derive definitions, 1712 vtables with their composites and second instantiations; thorough adds 2133 more definitions) x every value of its boundary domain (u8/u16 complete, wider integers/floats at boundary and lane-coded values, all sequences up to length 3/4 over reduced element domains, 2^30-element Vec<()>): the real encoder's bytes equal the reference encoder's. Exhaustive within the stated bounds."),
 "C02":("E1 exhaustive round trips over boundary domains x suffixes + preallocation-window length sweeps",
- "decode(encode(v) ++ suffix) == (v, len) for every registry type x boundary value x 4 suffixes, and for 18 element types the vector lengths straddling the 16 KiB preallocation window (thorough: every length 0..=3*chunk+1)."),
+ "decode(encode(v) ++ suffix) == (v, len) for every registry type x boundary value x 4 suffixes, the same round trip through IoReader over a one-byte-at-a-time reader, and for 18 element types the vector lengths straddling the 16 KiB preallocation window (thorough: every length 0..=3*chunk+1)."),
 "C03":("E2 lazy stateless DFS over input-environment answers vs the reference decoder; E3 deviation neighbourhoods",
  "Every byte string up to length 2 (quick) / 3 (thorough) over the full alphabet for every registry type, length 3/4 for small-alphabet types, depth 4-7 over a 20-byte alphabet by iterative deepening under a stated cap, and every single (thorough: double) byte deviation of valid encodings: accept/reject, value and consumed length equal the reference decoder; no panic; process death is a violation."),
 "C04":("E1 exhaustive enumeration of values and of distinguishable byte strings",
  "Every u8/u16/u32 value and every byte string the 8/16/32-bit decoders can distinguish (all 2^30 four-byte mode-2 strings, tag-03 payloads), plus boundary windows +-4096, all two-free-lane values and tag x length x top-bytes strings for 64/128 bit."),
 "C05":("E5 generated type definitions, E1/E2 on each, sub-process for termination",
- "1064 type definitions enumerated over the derive attribute grammar (<=3 fields / <=3 variants, every attribute and index source), each with a reference layout computed from the definition: all encode entry points, round trip, every index byte x payloads, skipped variants encode to nothing and terminate."),
+ "1169 (thorough 3302) type definitions enumerated over the derive attribute grammar (<=3 fields / <=3 variants, every attribute and index source), each with a reference layout computed from the definition: all encode entry points, round trip, every index byte x payloads, skipped variants encode to nothing and terminate."),
 "C06":("exhaustive operation-history enumeration on real containers (no state merging), invariant in every state",
- "Every operation sequence up to a depth (deque 6-7 ops over 8 operations from 3 seeds, vec/string, list/heap, B-tree insert/remove over a 4-key alphabet and from 12/24/100-key seeds, bit push/pop) and every bit sub-slice at every offset for all 8 store/order combinations; holders of every registry value."),
+ "Every operation sequence up to a depth (deque 6-8 ops over 8 operations from 5 seeds incl. wrapped rings of 62/65 elements around the count-prefix boundary, every encode form compared in every state, vec/string, list/heap, B-tree insert/remove over a 4-key alphabet and from 12/24/100-key seeds, bit push/pop) and every bit sub-slice at every offset for all 8 store/order combinations; holders of every registry value."),
 "C07":("E1 enumeration of entry points; E3 deviation-bounded short-write schedules; bulk vs element-wise twin",
  "All six encode entry points on every registry value; io::Write sink under every write schedule with <=1 (thorough 2) deviations; twelve primitive element types x lengths around the preallocation window x every deque split point (small) x arrays of 0..16385 elements against the Twin<T> instantiation for encode, decode and skip."),
 "C08":("E2 lazy DFS x input stacks; E3 deviation-bounded short-read schedules; explicit-state wrapper machines",
@@ -21,27 +21,27 @@ T={
 "C09":("E1 enumeration of hostile count families under a counting global allocator, worker processes",
  "Every container position of the measured types x claimed counts 2^16+1..2^32-1 x payload lengths around the 16 KiB chunk x 4 input kinds: peak live heap within a linear allowance and independent of the claimed count; >1 GiB requests refused and recorded. Two call sites with zero-width elements are open known findings."),
 "C10":("E6 fault enumeration with a construction/drop ledger",
- "45 containers of an instrumented element x sizes 0..40 x every failing position x {exhausted, malformed, depth-limit, mem-limit, panic}: live instances == those handed over; nothing leaked or dropped twice."),
+ "59 holders of instrumented elements (droppable, zero-sized droppable, skipped default-constructed payloads; arrays, Vec-backed, lists, maps, Box/Rc/Arc nests, derived and transparent types) x sizes 0..40 x every failing position x {exhausted, malformed, depth-limit, mem-limit, panic} x limits hit at the holder's own levels: live instances == those handed over, nothing leaked or dropped twice, no heap byte allocated during the call left live (counting allocator; thorough: same enumeration under ASan+LSan)."),
 "C11":("E1 every limit on valid encodings; E2 on byte strings; explicit-state depth machine; deep-input workers",
- "Every limit 0..=depth+2 on boundary values of every container-holding type (sandwich oracle), limits on explored byte strings, all programs of <=7 (9) calls through 44 stacks with binding depth limits, and 10^6-level inputs of 7 recursive shapes x 67 limits on a 2 MiB stack."),
+ "Every limit 0..=depth+2 on boundary values of every registry type (sandwich oracle; consume-all variant with and without trailing bytes), limits on explored byte strings, all programs of <=7 (9) calls through 44 stacks with binding depth limits, and 10^6-level inputs of 7 recursive shapes x 67 limits on a 2 MiB stack."),
 "C12":("E6 every limit 0..=U+1; E2 on byte strings; explicit-state memory machine",
  "Every limit 0..=U+1 (U<=4096) for every DecodeWithMemTracking type x boundary values: Ok iff L>U, U=0 without heap data, U >= heap payload; same threshold shape on explored byte strings; programs through 49 stacks with binding memory limits incl. sizes next to usize::MAX vs the saturating model."),
 "C13":("E1 enumeration incl. maximal witnesses from the reference model",
  "Every MaxEncodedLen/ConstEncodedLen/fixed-size type (built-in and generated derive definitions incl. compact/encoded_as/skip/generic) x boundary domain + maximal-encoding witness: encoded length <= / == declared."),
 "C14":("E1 cut points and concatenations; E2 consume-all equivalence on byte strings",
- "Every cut point of every boundary value's encoding fails; all ordered pairs (and triples over a subset) of core types concatenated decode back; decode_all / decode_all_with_depth_limit succeed iff decode succeeds with empty remainder on every explored byte string."),
+ "Every cut point of every boundary value's encoding fails and both consume-all entry points reject it followed by trailing bytes; all ordered pairs (and triples over a subset) of core types concatenated decode back value by value from a slice, through IoReader over one-byte / half-buffer readers and from an unknown-length input; decode_all / decode_all_with_depth_limit succeed iff decode succeeds with empty remainder on every explored byte string."),
 "C15":("E4 explicit-state BFS (stateright) over append histories, real append_or_new per transition",
  "All append histories up to depth 4 (5) with batches of 0..3 items over a 2-item alphabet, 5 item types, 4 alias forms, Vec and VecDeque targets, from empty and from seeds across 63/64 and 2^14; unit items around 2^30/2^32 incl. batches of 2^32+-1; every 1-2 byte start."),
 "C16":("E1 enumeration over a compiler-checked EncodeLike pair table",
- "206 EncodeLike families instantiated with concrete types (the compiler rejects any pair the crate does not declare) x the target's boundary domain: alias bytes == reference encoding of the target value and decode as the target; derive-emitted aliases of every generated definition."),
+ "215 EncodeLike families instantiated with concrete types (the compiler rejects any pair the crate does not declare) x the target's boundary domain: alias bytes == reference encoding of the target value and decode as the target; derive-emitted aliases of every generated definition."),
 "C17":("E5 generated programs, each compiled on its own with rustc against the freshly built rlibs",
- "All valid-Rust enum definitions with <=2 (3) variants over a 16-symbol index-source alphabet, index+discriminant combinations, 256..400-variant enums, attribute conflicts / unions / CompactAs shapes each with a valid twin: accept/reject equals the reference predicate, rejections carry a diagnostic."),
+ "All valid-Rust enum definitions with <=2 (3) variants over a 16-symbol index-source alphabet, index+discriminant combinations, 256..400-variant enums, every struct shape of <=3 fields deriving CompactAs (170), every ordered pair of field attributes at every position of 1-3-field structs and variants (216), unions, each invalid case next to valid twins: accept/reject equals the reference predicate, rejections carry a diagnostic."),
 "C18":("E1 DecodeLength on boundary values; E2 skip vs decode on byte strings",
- "len(encoded) == element count for every DecodeLength type x boundary values; skip and decode succeed with the same remainder or both fail on every explored byte string and on valid encodings with trailing bytes."),
+ "len(encoded) == element count for every DecodeLength type x boundary values; skip and decode succeed with the same remainder or both fail on every explored byte string and on valid encodings with trailing bytes, from slices, unknown-length inputs and IoReader (incl. a fallible CompactAs type)."),
 "C19":("E2 decode through CountedInput on byte strings; E4 explicit-state counter machine (hook presets the counter)",
  "count() == bytes delivered by the wrapped slice after success and after failure on every explored byte string; all sequences of <=5 (7) operations from starts {0, MAX-3..MAX} on a real CountedInput vs the saturating model, directly and through a Decode impl; 2^33 bytes without the hook."),
 "C20":("exhaustive build-and-run of the feature matrix of a minimal digest crate",
- "Per-type digests of (encoded corpus, decode outcomes on every byte string of length <=2, decode_all, skip, depth-limited decode, append) under 5 (36) feature configurations equal the default configuration's."),
+ "Per-type digests of (encoded corpus through every entry point, decode outcomes on every byte string of length <=2, on every single-byte deviation and truncation of each corpus encoding incl. follow-up decodes from the same cursor after a rejection, decode_all, skip, depth-limited decode, memory-limit thresholds, decode_from_bytes, append) under 5 (36) feature configurations equal the default configuration's."),
 }
 ids=sorted(T)
 checks=[]
